@@ -127,6 +127,8 @@ struct Script {
     /// arm the fault when the database itself reports that it enters a phase: (note, phase, k) =
     /// at the k-th note of that name whose arguments match the phase (see `phase_matches`)
     arm_on_note: Option<(&'static str, u64, u64)>,
+    /// creations of write-ahead logs take 2-8 ms and every merge step 0.2 ms
+    slow_wal_creation: bool,
 }
 
 #[derive(Clone)]
@@ -164,7 +166,7 @@ fn make_long_wal_script(seed: u64) -> Script {
     for _ in 0..20 {
         ops.push(ScriptOp::Get(rng.pick(&pool).clone()));
     }
-    Script { cfg, pool, ops, arm_at: Some(arm_at), short_writes: false, replay_on_shipped_file_systems: false, arm_on_note: None }
+    Script { cfg, pool, ops, arm_at: Some(arm_at), short_writes: false, replay_on_shipped_file_systems: false, arm_on_note: None, slow_wal_creation: false }
 }
 
 /// A compaction over cold tables: four sessions without log reuse each leave one level-0 table
@@ -200,7 +202,7 @@ fn make_cold_compaction_script(seed: u64) -> Script {
     for k in &pool {
         ops.push(ScriptOp::Get(k.clone()));
     }
-    Script { cfg, pool, ops, arm_at: Some(arm_at), short_writes: false, replay_on_shipped_file_systems: false, arm_on_note: None }
+    Script { cfg, pool, ops, arm_at: Some(arm_at), short_writes: false, replay_on_shipped_file_systems: false, arm_on_note: None, slow_wal_creation: false }
 }
 
 /// A write-ahead log that goes on living after a failed call: the memtable budget is large enough
@@ -242,7 +244,7 @@ fn make_midlife_wal_fault_script(seed: u64) -> Script {
             ops.push(ScriptOp::Get(rng.pick(&pool).clone()));
         }
     }
-    Script { cfg, pool, ops, arm_at: Some(arm_at), short_writes: false, replay_on_shipped_file_systems: false, arm_on_note: None }
+    Script { cfg, pool, ops, arm_at: Some(arm_at), short_writes: false, replay_on_shipped_file_systems: false, arm_on_note: None, slow_wal_creation: false }
 }
 
 fn make_script(history: u64, seed: u64, n_ops: usize) -> Script {
@@ -293,7 +295,7 @@ fn make_script(history: u64, seed: u64, n_ops: usize) -> Script {
             ops.push(ScriptOp::Reopen(Config { reuse: rng.chance(0.5), ..cfg }));
         }
     }
-    Script { cfg, pool, ops, arm_at: None, short_writes: false, replay_on_shipped_file_systems: false, arm_on_note: None }
+    Script { cfg, pool, ops, arm_at: None, short_writes: false, replay_on_shipped_file_systems: false, arm_on_note: None, slow_wal_creation: false }
 }
 
 /// Phases a fault can be tied to. 0: an automatic compaction that is a trivial move; 1: a manual
@@ -324,8 +326,9 @@ fn phase_calls(phase: u64) -> Vec<(OpKind, PathClass)> {
     use OpKind::*;
     match phase {
         0 => vec![(Write, PathClass::Manifest), (Flush, PathClass::Manifest)],
+        // (the creation of a write-ahead log while a compaction is merging is a memtable rotation that overlaps it)
         1 | 2 => vec![(CreateTrunc, PathClass::Table), (Write, PathClass::Table), (Flush, PathClass::Table), (OpenRead, PathClass::Table),
-            (Read, PathClass::Table), (Write, PathClass::Manifest), (Flush, PathClass::Manifest), (Remove, PathClass::Table)],
+            (Read, PathClass::Table), (Write, PathClass::Manifest), (Flush, PathClass::Manifest), (Remove, PathClass::Table), (CreateTrunc, PathClass::Wal), (CreateTrunc, PathClass::Wal)],
         3 => vec![(Write, PathClass::Wal), (Flush, PathClass::Wal), (CreateTrunc, PathClass::Table), (Write, PathClass::Table), (Write, PathClass::Manifest),
             (Flush, PathClass::Manifest), (Remove, PathClass::Wal)],
         4 => vec![(Remove, PathClass::Table), (Remove, PathClass::Wal), (Write, PathClass::Wal)],
@@ -349,10 +352,14 @@ fn case_phase_fault(out: &mut CaseOut, tier: &str, seed: u64, j: u64) {
     let nth = rng.below(2);
     let mode = *rng.pick(&[FaultMode::Transient, FaultMode::Transient, FaultMode::StickySame, FaultMode::StickyAll]);
     script.arm_on_note = Some((note, phase, k));
+    // a failing creation of a write-ahead log is made slow, and so is the merge it overlaps: whatever the
+    // compaction thread does in the meantime (opening outputs, taking file numbers) falls inside the failing call
+    script.slow_wal_creation = (kind, class) == (OpKind::CreateTrunc, PathClass::Wal);
     script.short_writes = kind == OpKind::Write && rng.chance(0.5);
     let fault = Fault { kind, class, nth, mode, after_effect: false };
     let ctx = json!({"family": "fault-tied-to-a-phase", "phase": phase_name, "armed_at_occurrence_of_phase": k, "config": script.cfg.describe(),
-        "failing_write_is_short": script.short_writes, "fault": {"call": kind.name(), "on": class.name(), "occurrence_after_phase_began": nth, "mode": mode.name()}});
+        "failing_write_is_short": script.short_writes, "slow_wal_creation_and_merge": script.slow_wal_creation,
+        "fault": {"call": kind.name(), "on": class.name(), "occurrence_after_phase_began": nth, "mode": mode.name()}});
     let result = run_script(out, &script, Some(fault), &ctx);
     let fired = out.obs.get("faults_fired").copied().unwrap_or(0) > 0;
     out.add("phase_fault_runs", 1);
@@ -381,6 +388,12 @@ fn run_script(out: &mut CaseOut, script: &Script, fault: Option<Fault>, ctx: &se
     d.reset(7);
     let fs = SimFs::from_image(&dbutil::root_image());
     fs.set_short_writes(script.short_writes);
+    if script.slow_wal_creation {
+        fs.set_delay(Some(std::sync::Arc::new(|kind, class| {
+            if kind == OpKind::CreateTrunc && class == PathClass::Wal { Some(std::time::Duration::from_millis(5)) } else { None }
+        })));
+        d.set_delay("compact.step", crate::director::Delay { probability: 1.0, min_us: 150, max_us: 300 });
+    }
     fs.record_journal(fault.is_some() && script.replay_on_shipped_file_systems);
     if script.arm_at.is_none() && script.arm_on_note.is_none() {
         fs.arm_fault(fault.clone());
